@@ -46,6 +46,7 @@ VARIABLES
   qclosed,  \* queue -> "open" | "closing" | "closed"
   lastExitAt,  \* line index of the latest exit
   lastDeqAt,   \* line index of the latest dequeue
+  rrPrev,   \* the cursor before the latest dequeue
   rr,       \* round-robin cursor reconstructed from the dequeues (1-based index of next queue)
   crashed, raced,
   overlap,  \* two state-changing control calls have been in progress at the same time (their combined effect is unspecified)
@@ -54,7 +55,7 @@ VARIABLES
 
 vars == <<l, hdr, E, sub, addCall, addRet, enters, exits, enterAt, exitAt, deqd, closeStarted, closeNil, mp,
           waitRet, lastRes, rank, pend, R, ctlPending, ws, epoch, pauseStarts, concNow, concMax, concSince,
-          qclosed, lastExitAt, lastDeqAt, rr, crashed, raced, overlap, pcancel, ad>>
+          qclosed, lastExitAt, lastDeqAt, rr, rrPrev, crashed, raced, overlap, pcancel, ad>>
 
 NoCall == [op |-> "none", job |-> 0, qi |-> 0, b |-> 0, n |-> 0, at |-> 0, snap |-> {}, clean |-> FALSE, entered |-> {},
            solo |-> FALSE, rankFloor |-> -1, closedBefore |-> FALSE, qclosedBefore |-> FALSE, waitedBefore |-> FALSE]
@@ -62,6 +63,7 @@ NoHdr == [ev |-> "reset", ep |-> "", mode |-> "gated", wk |-> "plain", conc |-> 
           batches |-> <<>>, clients |-> <<>>, expiry |-> 0, ratio |-> 0, ctx |-> FALSE, strategy |-> "rr",
           idgen |-> FALSE, nobind |-> FALSE, family |-> ""]
 
+SumSeq(s) == LET F[i \in 0..Len(s)] == IF i = 0 THEN 0 ELSE F[i - 1] + s[i] IN F[Len(s)]
 Max(S) == CHOOSE x \in S : \A y \in S : y <= x
 Min(S) == CHOOSE x \in S : \A y \in S : y >= x
 Range(s) == {s[i] : i \in DOMAIN s}
@@ -110,7 +112,7 @@ Blank(h) ==
   /\ concNow' = {NormConc(h.conc)} /\ concMax' = NormConc(h.conc)
   /\ concSince' = [j \in DOMAIN sub' |-> 0]
   /\ qclosed' = [q \in DOMAIN h.queues |-> "open"]
-  /\ lastExitAt' = 0 /\ lastDeqAt' = 0 /\ rr' = 1
+  /\ lastExitAt' = 0 /\ lastDeqAt' = 0 /\ rr' = 1 /\ rrPrev' = 1
   /\ crashed' = FALSE /\ raced' = FALSE /\ pcancel' = FALSE /\ overlap' = FALSE
   /\ ad' = [pending |-> <<>>, unacked |-> {}, acked |-> {}, issued |-> {}, badack |-> 0, earlyack |-> 0, enq |-> {}]
 
@@ -119,7 +121,7 @@ Init ==
   /\ sub = <<>> /\ addCall = <<>> /\ addRet = <<>> /\ enters = <<>> /\ exits = <<>> /\ enterAt = <<>> /\ exitAt = <<>>
   /\ deqd = <<>> /\ closeStarted = <<>> /\ closeNil = <<>> /\ mp = <<>> /\ waitRet = <<>> /\ lastRes = <<>> /\ rank = <<>>
   /\ pend = <<>> /\ R = NoCall /\ ctlPending = 0 /\ ws = "initiated" /\ epoch = "open" /\ pauseStarts = 0
-  /\ concNow = {1} /\ concMax = 1 /\ concSince = <<>> /\ qclosed = <<>> /\ lastExitAt = 0 /\ lastDeqAt = 0 /\ rr = 1
+  /\ concNow = {1} /\ concMax = 1 /\ concSince = <<>> /\ qclosed = <<>> /\ lastExitAt = 0 /\ lastDeqAt = 0 /\ rr = 1 /\ rrPrev = 1
   /\ crashed = FALSE /\ raced = FALSE /\ pcancel = FALSE /\ overlap = FALSE
   /\ ad = [pending |-> <<>>, unacked |-> {}, acked |-> {}, issued |-> {}, badack |-> 0, earlyack |-> 0, enq |-> {}]
 
@@ -129,7 +131,7 @@ Init ==
 U(v) == UNCHANGED v
 jobVars == <<sub, addCall, addRet, enters, exits, enterAt, exitAt, deqd, closeStarted, closeNil, mp, waitRet, lastRes, rank, concSince>>
 ctlVars == <<pend, R, ctlPending, ws, epoch, pauseStarts, concNow, concMax, qclosed, pcancel, overlap>>
-miscVars == <<lastExitAt, lastDeqAt, rr, crashed, raced, ad>>
+miscVars == <<lastExitAt, lastDeqAt, rr, rrPrev, crashed, raced, ad>>
 
 \* jobs submitted by a call: Add -> {job}; AddAll -> items
 SubmitSet(op, job, items) == IF op = "Add" THEN {job} ELSE IF op = "AddAll" THEN Range(items) ELSE {}
@@ -234,12 +236,12 @@ OnExit(e) ==
   /\ lastExitAt' = l
   /\ U(<<sub, addCall, addRet, enters, enterAt, deqd, closeStarted, closeNil, mp, waitRet, lastRes, rank, concSince>>)
   /\ U(ctlVars)
-  /\ U(<<lastDeqAt, rr, crashed, raced, ad>>)
+  /\ U(<<lastDeqAt, rr, rrPrev, crashed, raced, ad>>)
 
 OnDeq(e) ==
   /\ deqd' = [j \in Jobs |-> deqd[j] \/ j = e.job]
   /\ rr' = IF e.job \in Jobs /\ Len(hdr.queues) > 0 THEN (QOf(e.job) % Len(hdr.queues)) + 1 ELSE rr
-  /\ lastDeqAt' = l
+  /\ lastDeqAt' = l /\ rrPrev' = rr
   /\ U(<<sub, addCall, addRet, enters, exits, enterAt, exitAt, closeStarted, closeNil, mp, waitRet, lastRes, rank, concSince>>)
   /\ U(ctlVars)
   /\ U(<<lastExitAt, crashed, raced, ad>>)
@@ -260,13 +262,13 @@ OnAd(e) ==
        ELSE IF e.op = "purge" THEN [ad EXCEPT !.pending = <<>>]
        ELSE ad
   /\ U(jobVars) /\ U(ctlVars)
-  /\ U(<<lastExitAt, lastDeqAt, rr, crashed, raced>>)
+  /\ U(<<lastExitAt, lastDeqAt, rr, rrPrev, crashed, raced>>)
 
 OnOther(e) ==
   /\ crashed' = (crashed \/ e.ev = "crash")
   /\ raced' = (raced \/ e.ev = "race")
   /\ U(jobVars) /\ U(ctlVars)
-  /\ U(<<lastExitAt, lastDeqAt, rr, ad>>)
+  /\ U(<<lastExitAt, lastDeqAt, rr, rrPrev, ad>>)
 
 Next ==
   /\ l <= Len(Trace)
@@ -405,6 +407,23 @@ C11_AckAfter == ad.earlyack = 0
 \* every accepted entry is processed completely (acked after exit), or pending, or delivered-unacked
 C11_NoLoss == \A s \in ad.enq : (\E i \in DOMAIN ad.pending : ad.pending[i] = s) \/ (\E u \in ad.unacked \cup ad.acked : u[2] = s)
 
+---- \* C15 strategy (gated traces, when the contents of every queue are known for sure)
+Certain == \A j \in Jobs : sub[j] \notin {"calling", "unk"} /\ ~mp[j]
+PendBefore(q) == {j \in Jobs : QOf(j) = q /\ sub[j] = "acc" /\ (~deqd[j] \/ j = E.job)}
+LenB(q) == Cardinality(PendBefore(q))
+NQ == Len(hdr.queues)
+CycFrom(c) == [k \in 1..NQ |-> ((c - 1 + k - 1) % NQ) + 1]
+FirstNonEmpty(c) == LET hits == {k \in 1..NQ : LenB(CycFrom(c)[k]) > 0} IN
+                    IF hits = {} THEN 0 ELSE CycFrom(c)[CHOOSE x \in hits : \A y \in hits : x <= y]
+C15_Choice == E.ev = "deq" /\ E.job \in Jobs /\ Gated /\ Certain /\ NQ > 1 =>
+     LET qb == QOf(E.job) IN
+       CASE hdr.strategy = "rr" -> qb = FirstNonEmpty(rrPrev)
+         [] hdr.strategy = "max" -> \A q \in Queues : LenB(q) <= LenB(qb)
+         [] hdr.strategy = "min" -> \A q \in Queues : LenB(q) > 0 => LenB(qb) <= LenB(q)
+         [] OTHER -> TRUE
+\* every bound queue is registered exactly once: the worker's pending count is the sum over its queues (also C17)
+C15_RegisteredOnce == Quiescent => E.pending = SumSeq(E.qpending)
+
 ---- \* C16 status
 C16_Forward == E.ev = "ret" /\ E.op \in {"Status", "Wait"} /\ E.res # "nohandle" /\ E.job \in Jobs => Rank(E.st) >= R.rankFloor
 C16_InWF == E.ev \in {"enter", "exit"} /\ E.job \in Jobs => E.st = "Processing"
@@ -419,7 +438,6 @@ C17_ProcessingBound == IsRet("NumProcessing") => E.v <= concMax
 C17_MetricsBound == IsRet("Metrics") => /\ E.msub <= Cardinality({j \in Jobs : sub[j] # "none"})
                                         /\ E.mcomp <= Cardinality({j \in Jobs : exits[j] >= 1})
                                         /\ E.msucc + E.mfail <= Cardinality({j \in Jobs : exits[j] >= 1})
-SumSeq(s) == LET F[i \in 0..Len(s)] == IF i = 0 THEN 0 ELSE F[i - 1] + s[i] IN F[Len(s)]
 C17_ExactAtRest == Quiescent =>
      /\ E.pending = SumSeq(E.qpending)
      /\ E.pending >= 0 /\ E.processing = 0
